@@ -3437,6 +3437,15 @@ class DynamicTimeSeriesBucket(DynamicBucket):
 
     def assess(self, example):
         seq_len = self.len_key(example)
+        if (
+                self.max_total_size is not None
+                and ((len(self.data) + 1) * max(self.max_len, seq_len)
+                     > self.max_total_size)
+        ):
+            # A longer example increases the padded length of all examples in
+            # the bucket, hence the total size has to be checked here and not
+            # only in is_completed.
+            return False
         return self.lower_bound <= seq_len <= self.upper_bound
 
     def _append(self, example):
